@@ -275,6 +275,7 @@ def gen_op(rng: random.Random, allow_fork: bool = True) -> dict:
     elif kind == "mbi_config":
         o["export"] = rng.random() < 0.3
         o["reuse_object"] = rng.random() < 0.5
+        o["reuse_config"] = rng.random() < 0.4
     elif kind == "iee_config":
         o["ctr"] = rng.random() < 0.6
         o["variant"] = rng.choice(["implicit", "implicit", "explicit_key1"])
@@ -344,7 +345,8 @@ def gen_plan(family: str, i: int, rng: random.Random, tier: str) -> dict:
             elif twin["op"] == "iee":
                 twin["shared_attr"] = True
             elif twin["op"] == "mbi_config":
-                twin["reuse_object"] = True
+                twin["reuse_object"] = rng.random() < 0.5
+                twin["reuse_config"] = not twin["reuse_object"] or rng.random() < 0.5
             elif twin["op"] == "otfad":
                 twin.update(export=True)
             elif twin["op"] == "otfad_config":
